@@ -523,6 +523,15 @@ fn main() {
         if got == want_dash {
             return Verdict::pass(&got);
         }
+        // a third reading: the error text names the source differently (e.g. by
+        // its full path); everything else must still be equal
+        if let (Out::Err(g), Out::Err(w)) = (&got, &want_named) {
+            let g = g.replace(&path.display().to_string(), "<src>").replace(&file_name, "<src>");
+            let w = w.replace(&file_name, "<src>");
+            if g == w {
+                return Verdict::pass(&w.replace(&h, "<h>"));
+            }
+        }
         Verdict::fail(format!(
             "compile_scss_path({}) = {} but the cwd context on the same bytes (source named {file_name:?}) = {}",
             path.display(),
